@@ -25,6 +25,10 @@ pub enum ReadPlan {
     /// bytes were taken, then a convenience reader for the rest (0 bytes(), 1 write_to(),
     /// 2 read_to_end(), 3 split().2.bytes())
     PrefixThen { prefix: usize, step: usize, then: u8 },
+    /// std adaptors over the response as a `Read`: 0 read_vectored into three buffers of `size`,
+    /// 1 the `Read::bytes()` iterator, 2 `BufReader::new(resp)` + read_until(b'\n') lines,
+    /// 3 `take(u64::MAX)` + read_to_end, 4 `chain(empty)` + read_to_end
+    StdAdaptor { which: u8, size: usize },
 }
 
 impl ReadPlan {
@@ -38,6 +42,7 @@ impl ReadPlan {
             ReadPlan::Loop { sizes, via_split } => format!("read-loop{:?}{}", sizes, if *via_split { " via split()" } else { "" }),
             ReadPlan::TextReader { sizes } => format!("text_reader-loop{:?}", sizes),
             ReadPlan::Json(utf8) => if *utf8 { "json_utf8()".into() } else { "json()".into() },
+            ReadPlan::StdAdaptor { which, size } => format!("{} (size {size})", ["read_vectored x3", "Read::bytes() iterator", "BufReader + read_until", "take(MAX) + read_to_end", "chain(empty) + read_to_end"][*which as usize % 5]),
             ReadPlan::PrefixThen { prefix, step, then } => format!("read({step}) until {prefix} bytes, then {}", ["bytes()", "write_to()", "read_to_end()", "split().2.bytes()"][*then as usize % 4]),
         }
     }
@@ -49,7 +54,8 @@ impl ReadPlan {
 pub const READ_SIZES: &[usize] = &[0, 1, 2, 3, 7, 4096, 65_536, 1 << 20];
 
 pub fn random_plan(rng: &mut Rng) -> ReadPlan {
-    match rng.below(10) {
+    match rng.below(11) {
+        10 => ReadPlan::StdAdaptor { which: rng.below(5) as u8, size: *rng.pick(&[1usize, 3, 64, 4096, 70_000]) },
         9 => ReadPlan::PrefixThen { prefix: *rng.pick(&[1usize, 2, 5, 100, 5000, 9000]), step: *rng.pick(&[1usize, 3, 64, 8192]), then: rng.below(4) as u8 },
         0 => ReadPlan::Bytes,
         1 => {
@@ -274,6 +280,70 @@ pub fn consume(resp: Response, plan: &ReadPlan, extra_after_end: usize) -> Consu
             interrupted: 0,
                     after_end: vec![],
                     after_end_bytes: vec![],
+                },
+            }
+        }
+        ReadPlan::StdAdaptor { which, size } => {
+            use std::io::BufRead;
+            let mut delivered: Vec<u8> = Vec::new();
+            let mut interrupted = 0;
+            let fin = |delivered: Vec<u8>, end: End| Consumed { delivered, end, read_calls: 0, short_reads: 0, interrupted: 0, after_end: vec![], after_end_bytes: vec![] };
+            match which % 5 {
+                0 => {
+                    let mut resp = resp;
+                    let (mut a, mut b, mut c) = (vec![0u8; *size], vec![0u8; (*size).max(2) / 2], vec![0u8; *size]);
+                    loop {
+                        let (la, lb) = (a.len(), b.len());
+                        let res = {
+                            let mut bufs = [io::IoSliceMut::new(&mut a), io::IoSliceMut::new(&mut b), io::IoSliceMut::new(&mut c)];
+                            resp.read_vectored(&mut bufs)
+                        };
+                        match res {
+                            Ok(0) => return fin(delivered, End::Clean),
+                            Ok(n) => {
+                                let n = n.min(la + lb + c.len());
+                                delivered.extend_from_slice(&a[..n.min(la)]);
+                                if n > la {
+                                    delivered.extend_from_slice(&b[..(n - la).min(lb)]);
+                                }
+                                if n > la + lb {
+                                    delivered.extend_from_slice(&c[..n - la - lb]);
+                                }
+                            }
+                            Err(e) if e.kind() == io::ErrorKind::Interrupted && interrupted < 1000 => interrupted += 1,
+                            Err(e) => return fin(delivered, End::Error(format!("{:?}: {}", e.kind(), e))),
+                        }
+                        if delivered.len() > 600_000_000 {
+                            return fin(delivered, End::Error("verif: read_vectored does not end".into()));
+                        }
+                    }
+                }
+                1 => {
+                    for b in Read::bytes(resp) {
+                        match b {
+                            Ok(x) => delivered.push(x),
+                            Err(e) => return fin(delivered, End::Error(format!("{:?}: {}", e.kind(), e))),
+                        }
+                    }
+                    fin(delivered, End::Clean)
+                }
+                2 => {
+                    let mut r = io::BufReader::with_capacity((*size).max(1), resp);
+                    loop {
+                        match r.read_until(b'\n', &mut delivered) {
+                            Ok(0) => return fin(delivered, End::Clean),
+                            Ok(_) => {}
+                            Err(e) => return fin(delivered, End::Error(format!("{:?}: {}", e.kind(), e))),
+                        }
+                    }
+                }
+                3 => match resp.take(u64::MAX).read_to_end(&mut delivered) {
+                    Ok(_) => fin(delivered, End::Clean),
+                    Err(e) => fin(delivered, End::Error(format!("{:?}: {}", e.kind(), e))),
+                },
+                _ => match resp.chain(io::empty()).read_to_end(&mut delivered) {
+                    Ok(_) => fin(delivered, End::Clean),
+                    Err(e) => fin(delivered, End::Error(format!("{:?}: {}", e.kind(), e))),
                 },
             }
         }
